@@ -28,7 +28,7 @@ class Msg:
     body: bytes
     properties: spec.Basic.Properties
     routing_key: str
-    expires_at: float | None = None       # virtual unix time at which the per-message TTL fires (at queue head)
+    expires_at: int | None = None         # unix time in µs at which the per-message TTL fires (at queue head)
     seq: int = 0
     redelivered: bool = False
 
@@ -65,8 +65,9 @@ class FakeAmqpServer:
         self.dropped: list[Msg] = []                                  # dead-lettered with no DLX target (discarded)
         self._pumping = False
 
-    def now(self) -> float:
-        return time.time()
+    def now(self) -> int:
+        """server clock in whole microseconds (exact under the virtual clock)"""
+        return time.time_ns() // 1000
 
     def snapshot(self) -> dict:
         def mid(m: Msg) -> str:
@@ -82,7 +83,7 @@ class FakeAmqpServer:
         self.seq += 1
         exp = None
         if properties.expiration is not None:
-            exp = self.now() + int(properties.expiration) / 1000.0
+            exp = self.now() + int(properties.expiration) * 1000
         q.insert(Msg(body, properties, routing_key, exp, self.seq))
         return True
 
@@ -189,7 +190,7 @@ class FakeChannel:
             return
 
         async def timer(at=nxt):
-            await asyncio.sleep(max(0.0, at - self.server.now()) + 1e-6)
+            await asyncio.sleep(max(0, at - self.server.now()) / 1e6)
             self.server.pump()
             self._arm_ttl()
         self._ttl_task = asyncio.ensure_future(timer())
